@@ -1,5 +1,261 @@
 import OasisModel.Proto
-/- C11 commitment pool: driver stub (not built yet). -/
+import OasisModel.Roothash.Pool
+/-
+Driver for the commitment-pool model (`om_pool`), C11.  Every line carries the operation and what the
+real `commitment.Pool` answered; the model follows the operation, compares, and evaluates the rule
+predicates (`MayAccept`, `MayFinalize`, `Preferred`, timeout rule) on the *implementation's* accepted
+commitments, independently of the model pool.
+
+  committee <round> <members>            members: `w<id>`/`b<id>` comma separated, in order (`-` empty); resets
+  commit <sigOk> <node> <sched> <round> <hash> <fail> <res> [MUTATED]  VerifyExecutorCommitment + Add...
+        MUTATED: the serialized pool differs although the commitment was rejected
+  rawadd <node> <sched> <round> <hash> <fail> <res>                  AddVerifiedExecutorCommitment only
+  process <stragglers> <timeout> <disc> <res> [<node> <sched> <round> <hash> <fail>]
+        disc: pool.Discrepancy after the call; on `ok` the returned sc.Commitment (`nil` if nil)
+  finalize <stragglers> <timeout> <retryTimeout> <outcome...>        tryFinalizeRoundInsideTx (real, via hook)
+  state <highestRank|max> <disc> <rank>/<commit>/<votes> ...         serialized pool
+        commit: `-` or node.sched.round.hash.fail ; votes: `-` or node:hash|node:F comma separated
+  rank <round> <node> <res|none>    idx <round> <rank> <res|none>    member <node> <m><w><b>
+Answers: `ok`, `DIVERGE <detail>` (model ≠ implementation; afterwards only rule checks continue, answered
+`skip`), `SPECFAIL <detail>` (the rule itself is violated by the implementation's answer).
+-/
 namespace OasisModel.Roothash.Driver
-def main : IO Unit := IO.eprintln "mode not implemented"
+open OasisModel.Proto OasisModel.Roothash
+
+structure DSt where
+  c : Committee := []
+  round : Nat := 0
+  pool : Pool := {}
+  log : List EC := []        -- commitments the implementation accepted, arrival order
+  raw : Bool := false        -- a `rawadd` bypassed verification (rule checks need verified histories)
+  dead : Bool := false
+
+/-- The rule checks are claimed for verified histories and rounds where `round + idx` cannot wrap. -/
+def DSt.specOff (st : DSt) : Bool := st.raw || st.round + st.c.length ≥ two64
+
+def parseMember (s : String) : Option Member :=
+  match s.toList with
+  | 'w' :: r => (String.ofList r).toNat?.map (fun n => { role := .worker, node := n })
+  | 'b' :: r => (String.ofList r).toNat?.map (fun n => { role := .backup, node := n })
+  | _ => none
+
+def parseCommittee (s : String) : Option Committee :=
+  if s == "-" then some [] else (s.splitOn ",").mapM parseMember
+
+def parseBool (s : String) : Option Bool :=
+  if s == "1" then some true else if s == "0" then some false else none
+
+def parseEC (n s r h f : String) : Option EC := do
+  let n ← n.toNat?
+  let s ← s.toNat?
+  let r ← r.toNat?
+  let h ← h.toNat?
+  let f ← parseBool f
+  pure { node := n, sched := s, round := r, hash := h, failure := f }
+
+def showEC (e : EC) : String :=
+  s!"{e.node}.{e.sched}.{e.round}.{e.hash}.{if e.failure then 1 else 0}"
+
+def showECo : Option EC → String
+  | none => "-"
+  | some e => showEC e
+
+def showRank (r : Nat) : String := if r == maxRank then "max" else toString r
+
+def showVote : Option (Option Nat) → String
+  | none => "absent"
+  | some none => "F"
+  | some (some h) => toString h
+
+def errStr : Option AddErr → String
+  | none => "ok"
+  | some e => e.toString
+
+/-- Parse `node:hash` / `node:F`. -/
+def parseVote (s : String) : Option (Nat × Option Nat) :=
+  match s.splitOn ":" with
+  | [n, v] => do
+    let n ← n.toNat?
+    if v == "F" then pure (n, none) else do
+      let h ← v.toNat?
+      pure (n, some h)
+  | _ => none
+
+def parseVotes (s : String) : Option (List (Nat × Option Nat)) :=
+  if s == "-" then some [] else (s.splitOn ",").mapM parseVote
+
+structure Entry where
+  rank : Nat
+  commit : String
+  votes : List (Nat × Option Nat)
+
+def parseEntry (s : String) : Option Entry :=
+  match s.splitOn "/" with
+  | [r, cm, vs] => do
+    let r ← r.toNat?
+    let vs ← parseVotes vs
+    pure { rank := r, commit := cm, votes := vs }
+  | _ => none
+
+/-- Compare the serialized implementation pool with the model pool. -/
+def checkState (st : DSt) (hr : String) (disc : Bool) (entries : List Entry) : Option String :=
+  let p := st.pool
+  if showRank p.highestRank != hr then some s!"highest-rank model={showRank p.highestRank} impl={hr}"
+  else if p.discrepancy != disc then some s!"discrepancy-flag model={p.discrepancy} impl={disc}"
+  else
+    let ranks := (List.range (workerTotal st.c + 1)) ++ entries.map (·.rank) ++ [p.highestRank]
+    let nodes := st.c.map (·.node) ++ entries.flatMap (fun e => e.votes.map (·.1)) ++ st.log.map (·.node)
+    let bad := ranks.filterMap fun r =>
+      let ie := entries.find? (fun e => e.rank == r)
+      match p.scs r, ie with
+      | none, none => none
+      | some _, none => some s!"entry rank={r} model=present impl=absent"
+      | none, some _ => some s!"entry rank={r} model=absent impl=present"
+      | some sc, some e =>
+        if showECo sc.commitment != e.commit then
+          some s!"entry rank={r} commitment model={showECo sc.commitment} impl={e.commit}"
+        else
+          let bv := nodes.filterMap fun n =>
+            let iv : Option (Option Nat) := (e.votes.find? (fun x => x.1 == n)).map (·.2)
+            if showVote (sc.votes n) != showVote iv then
+              some s!"entry rank={r} vote of {n} model={showVote (sc.votes n)} impl={showVote iv}"
+            else none
+          bv.head?
+    bad.head?
+
+/-- Rule checks on the implementation's answer to a commit (second sentence of C11). -/
+def specAccept (st : DSt) (ec : EC) (res : String) : Option String :=
+  if res != "ok" || st.specOff then none
+  else if !isMember st.c ec.node then some s!"non-member {ec.node} accepted"
+  else if (voteOf st.log ec.sched ec.node).isSome then
+    some s!"second vote of node {ec.node} for scheduler {ec.sched} accepted"
+  else if !MayAccept st.c st.log ec then
+    some s!"commitment for scheduler {ec.sched} accepted although a higher-priority scheduler committed"
+  else none
+
+/-- Rule checks on the implementation's answer to a processing call (first and last sentence of C11). -/
+def specProcess (st : DSt) (stragglers : Nat) (timeout disc : Bool) (res : String) (ch : Option EC) :
+    Option String :=
+  if st.specOff then none
+  else if res == "still-waiting" && timeout then some "still-waiting although the round timer expired"
+  else if res == "ok" then
+    match ch with
+    | none => some "finalized without a scheduler commitment (nil)"
+    | some ch =>
+      if !MayFinalize st.c st.log stragglers disc ch then
+        some s!"finalized {showEC ch} stragglers={stragglers} discrepancy={disc} although MayFinalize is false"
+      else if !Preferred st.c st.log ch then
+        some s!"finalized {showEC ch} although a higher-priority scheduler committed"
+      else none
+  else if ["still-waiting", "discrepancy-detected", "no-scheduler-commitment", "insufficient-votes",
+           "bad-scheduler-commitment"].contains res then none
+  else some s!"unexpected outcome {res}"
+
+def step (st : DSt) (line : String) : DSt × String :=
+  let diverge (st : DSt) (msg : String) : DSt × String :=
+    if st.dead then (st, "skip") else ({ st with dead := true }, "DIVERGE " ++ msg)
+  let w := words line
+  match w with
+  | [] => (st, "ok")
+  | ["committee", r, ms] =>
+    match r.toNat?, parseCommittee ms with
+    | some r, some c => ({ c := c, round := r }, "ok")
+    | _, _ => diverge st "bad-op"
+  | "commit" :: so :: n :: s :: r :: h :: f :: res :: rest =>
+    match parseBool so, parseEC n s r h f with
+    | some so, some ec =>
+      if rest == ["MUTATED"] && !st.specOff then
+        ({ st with dead := true }, "SPECFAIL rejected commitment changed the pool")
+      else
+      match specAccept st ec res with
+      | some m => ({ st with dead := true }, "SPECFAIL " ++ m)
+      | none =>
+        let st1 := if res == "ok" then { st with log := st.log ++ [ec] } else st
+        if st.dead then (st1, "skip") else
+        let (p, e) := submit st.c st.round st.pool so ec
+        let st2 := { st1 with pool := p }
+        if errStr e != res then diverge st2 s!"commit result model={errStr e} impl={res}"
+        else (st2, "ok")
+    | _, _ => diverge st "bad-op"
+  | "rawadd" :: n :: s :: r :: h :: f :: [res] =>
+    match parseEC n s r h f with
+    | some ec =>
+      let st1 := if res == "ok" then { st with log := st.log ++ [ec] } else st
+      -- a raw add is outside the verified histories unless it would have passed verification
+      let st1 := { st1 with raw := st1.raw || (verify st.round true ec).isSome }
+      if st.dead then (st1, "skip") else
+      let (p, e) := add st.c st.pool ec
+      let st2 := { st1 with pool := p }
+      if errStr e != res then diverge st2 s!"add result model={errStr e} impl={res}"
+      else (st2, "ok")
+    | none => diverge st "bad-op"
+  | "process" :: sg :: to :: dc :: res :: rest =>
+    match sg.toNat?, parseBool to, parseBool dc with
+    | some sg, some to, some dc =>
+      let ch : Option (Option EC) := match rest with
+        | [n, s, r, h, f] => (parseEC n s r h f).map some
+        | ["nil"] => some none
+        | [] => some none
+        | _ => none
+      match ch with
+      | none => diverge st "bad-op"
+      | some ch =>
+        match specProcess st sg to dc res ch with
+        | some m => ({ st with dead := true }, "SPECFAIL " ++ m)
+        | none =>
+          if st.dead then (st, "skip") else
+          let (p, r) := process st.c st.pool sg to
+          let st2 := { st with pool := p }
+          if r.toString != res then diverge st2 s!"process result model={r.toString} impl={res}"
+          else if r == .ok && showECo (chosen p) != showECo ch then
+            diverge st2 s!"chosen commitment model={showECo (chosen p)} impl={showECo ch}"
+          else if p.discrepancy != dc then diverge st2 s!"discrepancy-flag model={p.discrepancy} impl={dc}"
+          else (st2, "ok")
+    | _, _, _ => diverge st "bad-op"
+  | "finalize" :: sg :: to :: rt :: outcome =>
+    match sg.toNat?, parseBool to, parseBool rt with
+    | some sg, some to, some rt =>
+      let out := " ".intercalate outcome
+      if !st.specOff && to && out == "waiting" then
+        ({ st with dead := true }, "SPECFAIL finalization keeps waiting although the round timer expired")
+      else if st.dead then (st, "skip") else
+      let (p, o) := tryFinalize st.c st.pool sg to rt
+      let st2 := { st with pool := p }
+      let m := o.toString
+      let same := m == out || (out == "round-failed" && m.startsWith "round-failed ")
+        || (out == "PANIC" && m == "panic")
+      if !same then diverge st2 s!"finalize outcome model={m} impl={out}"
+      else (st2, "ok")
+    | _, _, _ => diverge st "bad-op"
+  | "state" :: hr :: dc :: entries =>
+    if st.dead then (st, "skip") else
+    match parseBool dc, entries.mapM parseEntry with
+    | some dc, some es =>
+      match checkState st hr dc es with
+      | some m => diverge st m
+      | none => (st, "ok")
+    | _, _ => diverge st "bad-op"
+  | ["rank", r, n, res] =>
+    match r.toNat?, n.toNat? with
+    | some r, some n =>
+      let m := match schedulerRank st.c r n with | none => "none" | some x => toString x
+      if m != res then diverge st s!"SchedulerRank round={r} node={n} model={m} impl={res}" else (st, "ok")
+    | _, _ => diverge st "bad-op"
+  | ["idx", r, k, res] =>
+    match r.toNat?, k.toNat? with
+    | some r, some k =>
+      let m := match schedulerIdx st.c r k with | none => "none" | some x => toString x
+      if m != res then diverge st s!"SchedulerIdx round={r} rank={k} model={m} impl={res}" else (st, "ok")
+    | _, _ => diverge st "bad-op"
+  | ["member", n, res] =>
+    match n.toNat? with
+    | some n =>
+      let b (x : Bool) := if x then "1" else "0"
+      let m := b (isMember st.c n) ++ b (isWorker st.c n) ++ b (isBackupWorker st.c n)
+      if m != res then diverge st s!"membership node={n} model={m} impl={res}" else (st, "ok")
+    | none => diverge st "bad-op"
+  | _ => diverge st "bad-op"
+
+def main : IO Unit := loop step {}
+
 end OasisModel.Roothash.Driver
